@@ -74,3 +74,7 @@ check("C20", "Hypothesis corpora x sampled (PYTHONHASHSEED, random.seed, process
       "Corpora assembled from the other properties' generators plus order-sensitive specials (one-to-many mappings, nested pipelines, multi-flag regular expressions, added conditions, filters, correlation rules, every error class incl. multi-key messages, validators) are loaded, converted and validated by one driver script in sub-processes under different hash seeds, random seeds and repeated starts; all digests per corpus must agree and no query may contain an internal random identifier.",
       "Sampling of hash seeds and process starts; random part of injected names normalised in validation issue texts only.",
       "DESIGN.md section 3, C20")
+check("C10", "Hypothesis (backend + correlation template configuration, pipeline, referenced rules, correlation rule of every type); slot-by-slot oracle on a bracket-parsed query incl. truth-table comparison of extended conditions",
+      "The verification backend's correlation templates wrap every slot in named brackets; the parsed slots are compared with expectations computed from the source documents: embedded solo queries in reference order (raw or finalised), rule ids, normalisation, typing, timespan in seconds / mapped / verbatim against an own unit table, group-by / alias / condition fields through the reference field mapping, operator, count, percentile, template selection per type, nested correlation, and extended conditions decoded with the configuration's precedence.",
+      "Solo queries computed by the same backend class on fresh objects.",
+      "DESIGN.md section 3, C10")
